@@ -73,3 +73,59 @@ class unit_h_native:
 
     def result_is(n):
         return n
+
+
+# --- byte / hex forms of an amount -------------------------------------------------------------------------------------------------
+from pyvc.api import RecordOf, Bytes
+from bitcoinlib.values import Value
+
+
+def _value_sat_model(reg):
+    """Value.value_sat (float division and rounding, covered by the value_to_satoshi contracts) is taken as the abstract integer `ghost_sat` of the object"""
+    from pyvc.values import Rec
+    fget = Value.value_sat.fget
+
+    def m(ip, args, kwargs):
+        v = args[0]
+        if isinstance(v, Rec) and 'ghost_sat' in v.attrs:
+            return v.attrs['ghost_sat']
+        return ip.call_pyfunc_body(fget, args, kwargs)
+    reg.models[fget] = m
+
+
+def _bytes_case(fn_name, byteorder, length):
+    is_hex = fn_name == 'to_hex'
+    nbytes = (length // 2) if is_hex else length
+
+    def requires(self):
+        return self.ghost_sat < 256 ** nbytes
+
+    def result_is(self):
+        raw = int.to_bytes(self.ghost_sat, nbytes, byteorder)
+        return raw.hex() if is_hex else raw
+
+    d = {'params': {'self': RecordOf(Value, ghost_sat=Int(0, MAX_UNITS))}, 'kwargs': {'length': length, 'byteorder': byteorder},
+         'requires': requires, 'result_is': result_is, 'local_models': _value_sat_model, 'native_skip': True,
+         '__doc__': 'Value.%s(%d, %r): the %s-endian bytes%s of the integer number of smallest units, in the byte order ASKED for '
+                    '(value_sat abstract)' % (fn_name, length, byteorder, byteorder, ' as hexadecimal text' if is_hex else '')}
+    return contract('bitcoinlib.values.Value.' + fn_name, case='%s-%d' % (byteorder, length), props=('C17',))(type('value_%s_%s_%d' % (fn_name, byteorder, length), (), d))
+
+
+BYTES_CASES = [_bytes_case(f, b, ln)._contract.key for f, lens in (('to_bytes', (8, 7)), ('to_hex', (16, 14))) for b in ('little', 'big') for ln in lens]
+
+
+@contract('bitcoinlib.values.Value.to_hex', case='native', props=('C17',))
+class value_hex_native:
+    """native: the hexadecimal and byte forms of real Value objects read back (int.from_bytes) to the amount that was put in, both byte orders"""
+    params = {'n': Int(0, MAX_UNITS), 'length': Int(8, 16), 'order': Int(0, 1)}
+    native_only = True
+    bounded = 'random amounts, lengths 8..16 bytes, both byte orders'
+
+    def build(n, length, order):
+        bo = ('little', 'big')[order]
+        v = Value.from_satoshi(n)
+        return (lambda: (v.to_hex(2 * length, bo), v.to_bytes(length, bo), bo)), [], {}
+
+    def ensures(n, length, order, result):
+        hx, raw, bo = result
+        return len(raw) == length and int.from_bytes(raw, bo) == n and bytes.fromhex(hx) == raw
